@@ -38,7 +38,7 @@ theorem PresC.trans {a b c : Sys} (h1 : PresC a b) (h2 : PresC b c) : PresC a c 
 
 theorem PresC.updObs (s : Sys) (o : Oid) (f : Obs → Obs) (hf : GoodO f) : PresC s (s.updObs o f) :=
   ⟨List.prefix_refl _, fun h => ⟨h.nodup, h.lt⟩,
-   fun _ _ h => h.frame (ClQuiet.refl _) (TaskMono.refl _) (ObsMono.updObs s o f hf) (fun _ _ => Iff.rfl),
+   fun _ _ h => h.frame (ClQuiet.refl _) (TaskMono.refl _) (ObsMonoS.updObs s o f hf) (fun _ _ => Iff.rfl),
    fun _ h => h.frame rfl rfl rfl rfl (fun _ _ => Iff.rfl) (fun _ _ h => h)⟩
 
 theorem PresC.spawnAI (s : Sys) (o : Oid) (tl : Int) (now : Time) :
@@ -53,7 +53,7 @@ theorem PresC.core7 {s s1 : Sys} (hcl : s1.cl = s.cl) (ht : s1.tasks = s.tasks) 
     (hp : s1.procs = s.procs) (hn : s1.nextPid = s.nextPid) (hs : s1.starts = s.starts)
     (ha : s1.active = s.active) : PresC s s1 :=
   ⟨by rw [hp]; exact List.prefix_refl _, fun h => ⟨by rw [hp]; exact h.nodup, by rw [hp, hn]; exact h.lt⟩,
-   fun _ _ h => h.frame (ClQuiet.of_eq hcl) (TaskMono.of_eq ht) (ObsMono.of_eq ho) (fun _ _ => by rw [hp]),
+   fun _ _ h => h.frame (ClQuiet.of_eq hcl) (TaskMono.of_eq ht) (ObsMonoS.of_eq ho) (fun _ _ => by rw [hp]),
    fun _ h => h.frame (by rw [hcl]) (by rw [hcl]) hs ha (fun _ _ => by rw [hp])
      (fun _ _ hq => by rw [hp]; exact hq)⟩
 
@@ -105,7 +105,7 @@ theorem TelMid.updObs {s1 : Sys} {n : Nat} {v : List Oid} (h : TelMid s1 n v) (o
     · exact hst
 
 /-- the admission itself -/
-theorem TelMid.admit {s1 : Sys} {n : Nat} {v : List Oid} (h : TelMid s1 n v) (oid : Oid) (o : Obs)
+theorem TelMid.admission {s1 : Sys} {n : Nat} {v : List Oid} (h : TelMid s1 n v) (oid : Oid) (o : Obs)
     (hob : s1.obs? oid = some o) (hw : o.status = .waiting) (hv : oid ∉ v) (tu : Int) (ts : Bool) :
     TelMid (((({ s1 with telUse := tu, telStatus := ts, admitted := s1.admitted ++ [oid] }).updObs oid
       (fun r => { r with ast := some n })).spawn (.allocIngest oid 0) (n : Time)).1) n (oid :: v) := by
@@ -217,7 +217,7 @@ theorem telescopeVisit_inv (n : Nat) (s1 : Sys) (err : Option Err) (oid : Oid) (
               refine (PresC.updObs _ oid _ hgood).trans ?_
               refine (PresC.spawnAI _ oid 0 (n : Time)).trans ?_
               exact PresC.core7 rfl rfl rfl rfl rfl rfl rfl
-            · exact (hmid.admit oid o hob' hw hv _ _).core rfl rfl rfl
+            · exact (hmid.admission oid o hob' hw hv _ _).core rfl rfl rfl
       · simp only [hready, Bool.false_eq_true, if_false]
         split
         · have hgood : GoodO (fun r : Obs => { r with status := .finished }) :=
@@ -292,6 +292,38 @@ theorem EG.ofMid {s1 : Sys} {n : Nat} {v : List Oid} (hm : TelMid s1 n v) (hpw :
       show (n : Time) < p.wake + 1
       grind
 
+/-- the telescope's block, from the telescope-group clauses alone -/
+theorem telescope_key {s : Sys} (heg : EG s) {p : Proc} (hpm : p ∈ s.procs) (ha : p.alive = true)
+    (hmin : ∀ q ∈ s.procs, q.alive = true → p.wake ≤ q.wake) (hk : p.k = .telescope) :
+    PresC s (s.telescopeBlock p.wake).1 ∧ (∃ v, TelMid (s.telescopeBlock p.wake).1 (natNow p.wake) v) ∧
+      (∀ d, (s.telescopeBlock p.wake).2 = .timeout d → d = 1) := by
+  -- at the start of the block no admitted observation is still WAITING
+  have hmid0 : TelMid s (natNow p.wake) [] := by
+    refine ⟨heg.obsNodup, heg.admNodup, heg.telUniq, heg.telWake, ?_⟩
+    intro o ho
+    obtain ⟨ob, hob, hw⟩ := heg.adm o ho
+    refine ⟨ob, hob, fun hst => ?_⟩
+    exfalso
+    obtain ⟨w, hw1, hwa, _, _, hlt⟩ := hw hst
+    have h1 := hlt p hpm hk ha
+    have h2 := hmin w hw1 hwa
+    grind
+  unfold telescopeBlock
+  split
+  · exact ⟨PresC.core7 rfl rfl rfl rfl rfl rfl rfl, ⟨[], hmid0.core rfl rfl rfl⟩, fun d hd => by simp at hd⟩
+  · simp only
+    generalize hs0 : ({ s with telEvents := [], telDelayed := if s.schedDelayed = true ∧ (!s.telDelayed) = true then true else s.telDelayed } : Sys) = s0
+    have hc0 : PresC s s0 := by subst hs0; exact PresC.core7 rfl rfl rfl rfl rfl rfl rfl
+    have hm0 : TelMid s0 (natNow p.wake) [] := by subst hs0; exact hmid0.core rfl rfl rfl
+    have hnd : (s.obs.map (·.id)).Nodup := heg.obsNodup
+    obtain ⟨f1, v', f2⟩ := telescopeFold_inv (natNow p.wake) (s.obs.map (·.id)) hnd (s0, none) []
+      (fun _ _ => by simp) hm0
+    generalize (List.foldl (telescopeVisit (natNow p.wake)) (s0, none) (s.obs.map (·.id))) = r at f1 f2 ⊢
+    obtain ⟨s1, e1⟩ := r
+    cases e1 with
+    | some e => exact ⟨hc0.trans f1, ⟨v', f2⟩, fun d hd => by simp at hd⟩
+    | none => exact ⟨hc0.trans f1, ⟨v', f2⟩, fun d hd => by simp at hd; exact hd.symm⟩
+
 theorem step_telescope {s : Sys} (h : SInv s) {pid : Nat} {p : Proc} (hp : s.proc? pid = some p)
     (ha : p.alive = true) (hmin : ∀ q ∈ s.procs, q.alive = true → p.wake ≤ q.wake)
     (hk : p.k = .telescope) (orc : Oracle) : SInv (s.resume pid orc).1 := by
@@ -305,36 +337,7 @@ theorem step_telescope {s : Sys} (h : SInv s) {pid : Nat} {p : Proc} (hp : s.pro
   refine SInv.core ?_ hcore
   have hwake0 := h.eg.telWake p hpm hk
   have hn : ((natNow p.wake : Nat) : Time) ≤ p.wake := natNow_le p.wake hwake0
-  -- at the start of the block no admitted observation is still WAITING
-  have hmid0 : TelMid s (natNow p.wake) [] := by
-    refine ⟨h.eg.obsNodup, h.eg.admNodup, h.eg.telUniq, h.eg.telWake, ?_⟩
-    intro o ho
-    obtain ⟨ob, hob, hw⟩ := h.eg.adm o ho
-    refine ⟨ob, hob, fun hst => ?_⟩
-    exfalso
-    obtain ⟨w, hw1, hwa, _, _, hlt⟩ := hw hst
-    have h1 := hlt p hpm hk ha
-    have h2 := hmin w hw1 hwa
-    grind
-  -- the block
-  have key : PresC s (s.telescopeBlock p.wake).1 ∧ (∃ v, TelMid (s.telescopeBlock p.wake).1 (natNow p.wake) v) ∧
-      (∀ d, (s.telescopeBlock p.wake).2 = .timeout d → d = 1) := by
-    unfold telescopeBlock
-    split
-    · exact ⟨PresC.core7 rfl rfl rfl rfl rfl rfl rfl, ⟨[], hmid0.core rfl rfl rfl⟩, fun d hd => by simp at hd⟩
-    · simp only
-      generalize hs0 : ({ s with telEvents := [], telDelayed := if s.schedDelayed = true ∧ (!s.telDelayed) = true then true else s.telDelayed } : Sys) = s0
-      have hc0 : PresC s s0 := by subst hs0; exact PresC.core7 rfl rfl rfl rfl rfl rfl rfl
-      have hm0 : TelMid s0 (natNow p.wake) [] := by subst hs0; exact hmid0.core rfl rfl rfl
-      have hnd : (s.obs.map (·.id)).Nodup := h.eg.obsNodup
-      obtain ⟨f1, v', f2⟩ := telescopeFold_inv (natNow p.wake) (s.obs.map (·.id)) hnd (s0, none) []
-        (fun _ _ => by simp) hm0
-      generalize (List.foldl (telescopeVisit (natNow p.wake)) (s0, none) (s.obs.map (·.id))) = r at f1 f2 ⊢
-      obtain ⟨s1, e1⟩ := r
-      cases e1 with
-      | some e => exact ⟨hc0.trans f1, ⟨v', f2⟩, fun d hd => by simp at hd⟩
-      | none => exact ⟨hc0.trans f1, ⟨v', f2⟩, fun d hd => by simp at hd; exact hd.symm⟩
-  obtain ⟨hc, ⟨v, hm⟩, hy⟩ := key
+  obtain ⟨hc, ⟨v, hm⟩, hy⟩ := telescope_key h.eg hpm ha hmin hk
   generalize s.telescopeBlock p.wake = r at hc hm hy
   obtain ⟨s1, y⟩ := r
   simp only at hc hm hy ⊢
